@@ -46,6 +46,7 @@ fn one(out: &mut Out, ver: char, per_client: bool, seed: &[u8], entries: Vec<Ent
             s.set_read_timeout(Some(Duration::from_millis(30))).unwrap();
             s
         }).collect();
+        let sender_port_cell = std::cell::Cell::new(0u16);
         let r = guarded(|| {
             let mut mc = MemoryConfig::new(0);
             mc.seed = seed_v.clone();
@@ -54,6 +55,7 @@ fn one(out: &mut Out, ver: char, per_client: bool, seed: &[u8], entries: Vec<Ent
             let version = if ver == 'I' { Version::RfcDraft13 } else { Version::Google };
             let mut resp = Responder::new(version, &mc, &mut ltk);
             let mut sock = mio::net::UdpSocket::bind(&"0.0.0.0:0".parse().unwrap()).expect("bind");
+            sender_port_cell.set(sock.local_addr().unwrap().port());
             for e in &entries {
                 let a = if e.addr < 50 { receivers[e.addr as usize - 1].local_addr().unwrap() } else if e.addr < 100 { SocketAddr::new(ip_of(e.addr), 0) } else { SocketAddr::new(ip_of(e.addr), 4000 + e.addr) };
                 if ver == 'I' { resp.add_ietf_request(&e.request, e.nonce.clone(), a); } else { resp.add_classic_request(e.nonce.clone(), a); }
@@ -66,12 +68,13 @@ fn one(out: &mut Out, ver: char, per_client: bool, seed: &[u8], entries: Vec<Ent
             per.sort();
             (tot, per)
         });
-        // what actually arrived
+        // what actually arrived (from the responder's socket: see util::recv_from_port)
+        let sender_port = sender_port_cell.get();
         let mut recv: Vec<String> = vec![];
         let mut dgs: Vec<String> = vec![];
         for (k, s) in receivers.iter().enumerate() {
             let mut buf = [0u8; 8192];
-            while let Ok((n, _)) = s.recv_from(&mut buf) {
+            while let Ok((n, _)) = recv_from_port(s, &mut buf, sender_port) {
                 recv.push(format!("{}:{}", k + 1, n));
                 dgs.push(format!("{}:{}", k + 1, hex(&buf[..n])));
             }
